@@ -4,6 +4,8 @@ import (
 	"fmt"
 	"strings"
 
+	"github.com/cespare/xxhash/v2"
+
 	"github.com/prometheus/prometheus/model/labels"
 )
 
@@ -39,6 +41,9 @@ type LObs struct {
 	Str   []byte      `json:"str"`
 	Bytes []byte      `json:"bytes"`
 	Hash  uint64      `json:"hash"`
+	// StableHash and its reference: xxhash64 over (name 0xff value 0xff)* of the Range output
+	Stable    uint64 `json:"stable"`
+	StableRef uint64 `json:"stable_ref"`
 	Gets  []Get       `json:"gets"`
 }
 
@@ -148,7 +153,8 @@ func runProg(p *Prog) (t Trans) {
 	for i := range regs {
 		ls := regs[i]
 		o := LObs{Range: rangeOf(ls), Len: ls.Len(), Empty: ls.IsEmpty(), Str: []byte(ls.String()),
-			Bytes: append([]byte{}, ls.Bytes(nil)...), Hash: ls.Hash()}
+			Bytes: append([]byte{}, ls.Bytes(nil)...), Hash: ls.Hash(), Stable: labels.StableHash(ls)}
+		o.StableRef = stableRef(o.Range)
 		for _, pr := range p.Probes {
 			o.Gets = append(o.Gets, Get{V: []byte(ls.Get(string(pr))), H: ls.Has(string(pr))})
 		}
@@ -161,6 +167,18 @@ func runProg(p *Prog) (t Trans) {
 		}
 	}
 	return t
+}
+
+// stableRef: the documented definition of StableHash, computed from the iteration only.
+func stableRef(r [][2][]byte) uint64 {
+	var b []byte
+	for _, l := range r {
+		b = append(b, l[0]...)
+		b = append(b, 0xff)
+		b = append(b, l[1]...)
+		b = append(b, 0xff)
+	}
+	return xxhash.Sum64(b)
 }
 
 func strs(b [][]byte) []string {
